@@ -98,7 +98,31 @@ class C11(ProgramProperty):
             yield {'src': s}
 
     def gen(self, cs, ctx):
-        k = cs.weighted([170, 50, 36])
+        k = cs.weighted([170, 50, 36, 24])
+        if k == 3:
+            # renderings that begin with a soft keyword used as a name, with colons of their own (lambdas bare and as defaults of
+            # lambdas, dict displays, slices): parsing the rendering back must not take the name for a keyword
+            from ..gen.pygen import SOFT, tk, T
+            g = PyGen(cs, budget=4 + cs.choice(12), py312=False, avoid=self.avoid() & self.open())
+            head = T(cs.pick(list(SOFT)), 'n')
+            lam = g.lambda_()
+            if cs.bool(128):
+                lam = [tk('lambda'), T('a', 'n'), tk('=')] + ([tk('(')] if cs.bool() else []) + g.lambda_()
+                if lam[3].s == '(':
+                    lam += [tk(')')]
+                lam += [tk(':')] + g.sub('or')
+            form = cs.choice(5)
+            if form == 0:
+                toks = [head, tk('if')] + g.sub('or') + [tk('else')] + lam
+            elif form == 1:
+                toks = [head, tk(',')] + lam
+            elif form == 2:
+                toks = [head, tk('or')] + g.colon_rich()
+            elif form == 3:
+                toks = [head, tk('['), tk(':'), tk(']'), tk(',')] + lam
+            else:
+                toks = [head, tk('(')] + lam + [tk(')'), tk('if')] + g.sub('or') + [tk('else')] + g.colon_rich()
+            return {'src': render([('line', toks)]).text.strip('\n').replace('µ', 'mu')}
         if k == 0:
             g = PyGen(cs, budget=4 + cs.choice(36 if ctx.tier == 'quick' else 120), py312=False, avoid=self.avoid() & self.open())
             toks = g.expr('test')
@@ -112,6 +136,11 @@ class C11(ProgramProperty):
                 src = {'inf': '1e999', '-inf': '-1e999', 'nan': '(1e999 - 1e999)'}.get(src, src)
             elif j == 1:
                 src = str(vg.gen_int(cs))
+            elif j == 2 and cs.bool(128):
+                # the characters written raw in the source (only quote, backslash and line ends escaped): whatever the
+                # unparser chooses to escape must read back as the same character
+                t = vg.gen_text(cs, 10)
+                src = "'" + ''.join('\\' + c if c in "'\\" else ('\\x%02x' % ord(c) if c in '\r\n\x00' else c) for c in t) + "'"
             elif j == 2:
                 src = repr(vg.gen_text(cs, 10))
             elif j == 3:
